@@ -63,6 +63,8 @@ type provState struct {
 	seen  map[ssa.Value]bool
 	base  map[ssa.Value]bool
 	depth int
+	// struct parameters whose field reads were resolved field by field at the call sites
+	fieldFollowed map[*ssa.Parameter]bool
 }
 
 func (st *provState) markBase(v ssa.Value) {
@@ -85,11 +87,100 @@ func rootsOf(cfg provCfg, v ssa.Value) RootSet {
 	return rs
 }
 
+// spilledParam: al is the local copy that go/ssa makes of a by-value struct parameter whose
+// fields are read (`t0 = local T (p); *t0 = p; &t0.f`): written once, with the parameter, and
+// otherwise only read (whole, or field by field). It then stands for the parameter.
+func spilledParam(al *ssa.Alloc) *ssa.Parameter {
+	if al == nil || al.Referrers() == nil {
+		return nil
+	}
+	if _, isStruct := al.Type().Underlying().(*types.Pointer).Elem().Underlying().(*types.Struct); !isStruct {
+		return nil
+	}
+	var par *ssa.Parameter
+	var onlyRead func(addr ssa.Value, d int) bool
+	onlyRead = func(addr ssa.Value, d int) bool {
+		if addr.Referrers() == nil || d > 3 {
+			return d <= 3
+		}
+		for _, r := range *addr.Referrers() {
+			switch u := r.(type) {
+			case *ssa.UnOp, *ssa.DebugRef:
+			case *ssa.FieldAddr:
+				if u.X != addr || !onlyRead(u, d+1) {
+					return false
+				}
+			case *ssa.Store:
+				p, isPar := u.Val.(*ssa.Parameter)
+				if u.Addr != addr || addr != ssa.Value(al) || !isPar || par != nil {
+					return false
+				}
+				par = p
+			default:
+				return false
+			}
+		}
+		return true
+	}
+	if !onlyRead(al, 0) {
+		return nil
+	}
+	return par
+}
+
+// structFieldStored: v is a struct value built locally - the load of a composite literal /
+// local struct variable whose field is written exactly once and which is otherwise only read:
+// returns the value stored in that field.
+func structFieldStored(v ssa.Value, field int) ssa.Value {
+	ld, ok := v.(*ssa.UnOp)
+	if !ok || ld.Op.String() != "*" {
+		return nil
+	}
+	al, ok := ld.X.(*ssa.Alloc)
+	if !ok || al.Referrers() == nil {
+		return nil
+	}
+	var val ssa.Value
+	for _, r := range *al.Referrers() {
+		switch u := r.(type) {
+		case *ssa.UnOp, *ssa.DebugRef:
+		case *ssa.FieldAddr:
+			if u.X != ssa.Value(al) || u.Referrers() == nil {
+				return nil
+			}
+			for _, r2 := range *u.Referrers() {
+				switch s := r2.(type) {
+				case *ssa.Store:
+					if s.Addr != ssa.Value(u) {
+						return nil
+					}
+					if u.Field == field {
+						if val != nil {
+							return nil
+						}
+						val = s.Val
+					}
+				case *ssa.UnOp, *ssa.DebugRef:
+				default:
+					return nil
+				}
+			}
+		default:
+			return nil // whole-struct store, address passed on
+		}
+	}
+	return val
+}
+
 // accessPath returns "name.f.g" when v is a chain of field reads from a parameter/freevar.
 func accessPath(v ssa.Value) (string, bool) {
 	switch x := v.(type) {
 	case *ssa.Parameter:
 		return x.Name(), true
+	case *ssa.Alloc:
+		if p := spilledParam(x); p != nil {
+			return p.Name(), true
+		}
 	case *ssa.FreeVar:
 		return x.Name(), true
 	case *ssa.UnOp:
@@ -140,7 +231,22 @@ func (st *provState) visit(v ssa.Value, rs RootSet, depth int) {
 		// the base of a field read is recorded as "base:", the value actually read as "param:";
 		// a parameter that is resolved through its callers is an intermediate ("followed:")
 		par, isParam := v.(*ssa.Parameter)
-		willFollow := isParam && st.cfg.FollowCallers && depth < st.cfg.MaxDepth && (st.cfg.FollowParam == nil || st.cfg.FollowParam(par)) && len(st.cfg.W.callGraph().callers[par.Parent()]) > 0
+		canFollow := func(p *ssa.Parameter) bool {
+			return st.cfg.FollowCallers && depth < st.cfg.MaxDepth && (st.cfg.FollowParam == nil || st.cfg.FollowParam(p)) && len(st.cfg.W.callGraph().callers[p.Parent()]) > 0
+		}
+		willFollow := isParam && canFollow(par)
+		// a field read from a by-value struct parameter: resolved field by field at the call sites
+		var fieldPar *ssa.Parameter
+		fieldIdx := -1
+		if ld, isLd := v.(*ssa.UnOp); isLd && !st.base[v] {
+			if fa, isFA := ld.X.(*ssa.FieldAddr); isFA {
+				if al, isAl := fa.X.(*ssa.Alloc); isAl {
+					if sp := spilledParam(al); sp != nil && canFollow(sp) {
+						fieldPar, fieldIdx, willFollow = sp, fa.Field, true
+					}
+				}
+			}
+		}
 		switch {
 		case st.base[v]:
 			rs.add("base:" + p)
@@ -159,13 +265,29 @@ func (st *provState) visit(v ssa.Value, rs RootSet, depth int) {
 				st.markBase(fa)
 				st.markBase(fa.X)
 			}
+			// a base read from a variable cell (a parameter captured by a closure is spilled to
+			// one): the cell, and what is stored into it, is that same base
+			if st.base[v] {
+				switch x.X.(type) {
+				case *ssa.FreeVar, *ssa.Alloc:
+					st.markBase(x.X)
+				}
+			}
 		case *ssa.Call:
 			if len(x.Common().Args) == 1 {
 				st.markBase(x.Common().Args[0])
 			}
 		}
-		// parameters of unexported functions: follow callers
-		if par, isPar := v.(*ssa.Parameter); isPar && st.cfg.FollowCallers && depth < st.cfg.MaxDepth && (st.cfg.FollowParam == nil || st.cfg.FollowParam(par)) {
+		if fieldPar != nil {
+			if st.fieldFollowed == nil {
+				st.fieldFollowed = map[*ssa.Parameter]bool{}
+			}
+			st.fieldFollowed[fieldPar] = true
+			st.followCallersField(fieldPar, fieldIdx, rs, depth)
+		}
+		// parameters of unexported functions: follow callers (a struct parameter that is only the
+		// base of field reads already followed field by field is not followed as a whole)
+		if par, isPar := v.(*ssa.Parameter); isPar && st.cfg.FollowCallers && depth < st.cfg.MaxDepth && (st.cfg.FollowParam == nil || st.cfg.FollowParam(par)) && !(st.base[v] && st.fieldFollowed[par]) {
 			st.followCallers(par, rs, depth)
 		}
 		if _, isPar := v.(*ssa.Parameter); isPar {
@@ -266,6 +388,9 @@ func (st *provState) visitStoresTo(addr ssa.Value, rs RootSet, depth int) {
 		switch u := r.(type) {
 		case *ssa.Store:
 			if u.Addr == addr {
+				if st.base[addr] {
+					st.markBase(u.Val)
+				}
 				st.visit(u.Val, rs, depth)
 			}
 		case *ssa.FieldAddr:
@@ -400,6 +525,64 @@ func (st *provState) followCallers(par *ssa.Parameter, rs RootSet, depth int) {
 	}
 }
 
+// followCallersField: field #field of the by-value struct parameter par, as passed by the
+// module callers: the value stored in that field of the composite literal / local struct
+// built at the call site; the same field of the caller's own struct parameter when the struct
+// is handed on; the whole argument when neither can be told.
+func (st *provState) followCallersField(par *ssa.Parameter, field int, rs RootSet, depth int) {
+	fn := par.Parent()
+	idx := -1
+	for i, p := range fn.Params {
+		if p == par {
+			idx = i
+		}
+	}
+	if idx < 0 || depth > st.cfg.MaxDepth {
+		return
+	}
+	stt, _ := par.Type().Underlying().(*types.Struct)
+	fname := ""
+	if stt != nil && field < stt.NumFields() {
+		fname = "." + stt.Field(field).Name()
+	}
+	for _, cs := range st.cfg.W.callGraph().callers[fn] {
+		cc := cs.Instr.Common()
+		args := cc.Args
+		if cc.IsInvoke() {
+			args = append([]ssa.Value{cc.Value}, args...)
+		}
+		if idx >= len(args) {
+			continue
+		}
+		rs.add("viacaller:" + fnName(cs.Caller))
+		a := args[idx]
+		// handed on: the caller's own parameter (or the local copy of it)
+		var up *ssa.Parameter
+		switch x := a.(type) {
+		case *ssa.Parameter:
+			up = x
+		case *ssa.UnOp:
+			if al, ok := x.X.(*ssa.Alloc); ok && x.Op.String() == "*" {
+				up = spilledParam(al)
+			}
+		}
+		if up != nil {
+			if st.cfg.FollowCallers && (st.cfg.FollowParam == nil || st.cfg.FollowParam(up)) && len(st.cfg.W.callGraph().callers[up.Parent()]) > 0 {
+				rs.add("followed:" + up.Name() + fname)
+				st.followCallersField(up, field, rs, depth+1)
+			} else {
+				rs.add("param:" + up.Name() + fname)
+			}
+			continue
+		}
+		if val := structFieldStored(a, field); val != nil {
+			st.visit(val, rs, depth+1)
+			continue
+		}
+		st.visit(a, rs, depth+1)
+	}
+}
+
 func (st *provState) followFreeVar(fv *ssa.FreeVar, rs RootSet, depth int) {
 	fn := fv.Parent()
 	idx := -1
@@ -415,6 +598,9 @@ func (st *provState) followFreeVar(fv *ssa.FreeVar, rs RootSet, depth int) {
 	for _, b := range par.Blocks {
 		for _, in := range b.Instrs {
 			if mc, ok := in.(*ssa.MakeClosure); ok && mc.Fn == fn && idx < len(mc.Bindings) {
+				if st.base[fv] {
+					st.markBase(mc.Bindings[idx]) // the captured variable is only the base of a field read
+				}
 				st.visit(mc.Bindings[idx], rs, depth)
 			}
 		}
